@@ -322,6 +322,9 @@ func runCheck(repo, root, prop, tier string, seed int) *CheckResult {
 			if !take && isSafetyProp && hasProp(e.safetyProps, prop) {
 				take = true
 			}
+			if take && strings.Contains(o.Label, ".thorough") && tier != "thorough" {
+				take = false // a proof that needs tens of seconds: thorough tier only (the quick tier leaves it to the bounded stand-in)
+			}
 			if take {
 				obls = append(obls, o)
 				cnt++
